@@ -72,6 +72,9 @@ MENU = [
     ("doc-shapes", 'def ds1():\n    """\n    Title\n        indented\n    """\ndef ds2():\n    """Title\n\n        code\n    text\n    """\nclass DS3:\n    """\n        Deep\n            deeper\n    """\n'),
     ("class-attr-annotated", "class Ann:\n    a: int = 1\n    b: str = 'x'\n"),
     # plain subclasses of a class that has a subscripted base (CPython keeps __orig_bases__ on the generic class and its subclasses INHERIT the attribute)
+    # two stacked decorators (built-in then standard library, and the reverse), asynchronous static and class methods
+    ("stacked-decorators", "import abc, functools\nclass St:\n    @property\n    @abc.abstractmethod\n    def ap(self): ...\n    @staticmethod\n    @functools.cache\n    def sc(x): ...\n"
+                           "    @staticmethod\n    async def sa(x): ...\n    @classmethod\n    async def ca(cls, y): ...\n"),
     ("inherit-below-generic", "import typing\nTV = typing.TypeVar('TV')\nclass Box(typing.Generic[TV]):\n    def get(self): ...\nclass PlainBox(Box):\n    pass\nclass DeeperBox(PlainBox):\n    pass\n"),
     # annotations that exist only as text: quoted names nothing defines, a name imported under TYPE_CHECKING only (evaluating them fails; the signature does not depend on them)
     ("f-unresolvable-annotations", "import typing\nif typing.TYPE_CHECKING:\n    from decimal import Decimal\ndef fq(a: 'NotDefinedAnywhere', b: 'Decimal' = 1, *, k: 'list[Nope]' = None) -> 'AlsoNot': ...\n"
@@ -127,7 +130,9 @@ def skeleton(obj, griffe, static):
         if m.is_module:
             continue
         if m.is_function:
-            out[name] = ("function", tuple((p.name, p.kind.value, bool(p.required)) for p in m.parameters), m.docstring.value if m.docstring else None)
+            # (labels are agent-specific vocabulary, except the two kinds of method CPython itself distinguishes)
+            out[name] = ("function", tuple((p.name, p.kind.value, bool(p.required)) for p in m.parameters), m.docstring.value if m.docstring else None,
+                         tuple(sorted(l for l in m.labels if l in ("staticmethod", "classmethod"))))
         elif m.is_class:
             bases = []
             for b in m.bases:
@@ -169,6 +174,8 @@ def diff(a, b, path=""):
                                 yield (p, f"parameter-required/{q[1]}", q, o)
                 if x[2] != y[2]:
                     yield (p, "function-docstring", x[2], y[2])
+                if len(x) > 3 and len(y) > 3 and x[3] != y[3]:
+                    yield (p, "method-kind", x[3], y[3])
             elif x[0] == "class":
                 if x[1] != y[1]:
                     yield (p, "bases", x[1], y[1])
